@@ -12,7 +12,7 @@ import time
 import replayer
 
 
-def _sweep(name, tool, inputs, bound, kind_re=r'INCONSISTENT kind=(\S+) input=(".*?")( split_at=(\d+))?.*?\n((?:  .*\n?)+)'):
+def _sweep(name, tool, inputs, bound, kind_re=r'INCONSISTENT kind=(\S+) input=("(?:[^"\\]|\\.)*")( split_at=(\d+))?.*?\n((?:  .*\n?)+)'):
     t0 = time.time()
     path, err = replayer.build_tool(tool)
     if path is None:
@@ -46,6 +46,25 @@ HENC_CASES = [
     ('-', '<title><meta charset=x></title>'), ('-', '<script><meta charset=x></script>'), ('-', '</meta charset=x>'),
     ('big5', '<meta http-equiv="CONTENT-TYPE" content="a;Charset = \'big5\' x">'), ('-', '<meta http-equiv="content-type" content="charset=\'big5">'),
     ('y', '<meta http-equiv="content-type" content="charset x; charset=y;z">'), ('latin1,utf-8', '<link charset=q><meta charset=latin1><base charset=r><meta charset=utf-8>'),
+]
+
+
+TRACE_DOCS = [
+    '<div><b>bold</div><table><tr><td>cell</td></tr></table><a>link</a> tail',
+    '<p><b><i>x</p>y<table><td><a>z</table>w',
+    '<b><template><i>x</template>y</b>z',
+    '<form><input><table><input></form>x<input>',
+    '<a><p>x</a>y</p>z',
+    '<b><applet><i>x</applet>y</b>z',
+    '<i><object><b>x</object></i><b>y',
+    '<table><caption><b>x</caption><tr><td><i>y</td></tr></table>z',
+    '<head><title>t</title></head><body><b><marquee><u>x</marquee>y',
+    '<b><p><table><tr><th><em>x</th></tr></table></b>y',
+    '<select><option>a<option>b</select><b>c',
+    '<svg><desc><b>x</desc></svg><i>y',
+    '<b><b><b><b>x</b></b>y<table>z<td>w',
+    '<html><head></head><frameset><frame></frameset>',
+    '<template><b><td>x</td></b></template><i>y',
 ]
 
 
@@ -113,6 +132,9 @@ def run_kani_unit(name, tier):
     if name == 'b_henc':
         return _sweep(name, 'henc', ['%s\t%s' % c for c in HENC_CASES],
                       '%d documents x every 2-chunk split; EncodingIndicators raised vs the labels the WHATWG rules prescribe' % len(HENC_CASES))
+    if name == 'b_trace':
+        return _sweep(name, 'htrace', TRACE_DOCS, '%d HTML documents x every split point x (no script action | a script detaches one of the existing elements); '
+                      'handles used by the tree builder after the suspension point vs the handles trace_handles reported (and what is connected to them)' % len(TRACE_DOCS))
     if name == 'b_hser':
         import itertools
         alpha = ['a', '&', '<', '>', '"', "'", '\\u{a0}', '\\u{a9}', '\\u{e9}', ' ']
